@@ -62,6 +62,35 @@ Theorem C04_l1_index_list_write : forall (w : world) p ti name l r,
 Proof. exact setcell_list_refines. Qed.
 Print Assumptions C04_l1_index_list_write.
 
+(* col[selection] = value: the L1 step (row positions by dict lookup for a MixedColumn, by argsort + searchsorted for
+   numeric columns; coercion on the regenerated _tosequence bounds) is the L0 operation for EVERY row order of the table
+   and of the selection: values go to the rows the selection names, in the selection's order; a selection of another
+   family raises (ValueError), a relative holding a row the table lacks raises (KeyError) and nothing is written *)
+Theorem C04_l1_selection_write_refines : forall (w : world) p ti name t2 r,
+  pool w = map abs p -> winv p ->
+  match lstep p (OSetCell ti name (ASel t2) r) with
+  | LUpd i t' => step w (OSetCell ti name (ASel t2) r) = (put w i (abs t'), OkUnit)
+  | LErr => exists e, snd (step w (OSetCell ti name (ASel t2) r)) = Err e
+                      /\ fst (step w (OSetCell ti name (ASel t2) r)) = w
+  | LSkip => True
+  | _ => False
+  end.
+Proof. exact setcell_sel_refines. Qed.
+Print Assumptions C04_l1_selection_write_refines.
+
+(* the premises are met and all three outcomes occur: a shuffled table written through a selection in another order;
+   a relative holding a row the table lacks *)
+Example C04_selection_write_example :
+  let w := run [ONew 4; OSetColKind 0 "f" KFloat; OSetCol 0 "f" (RSeq [PInt 10; PInt 20; PInt 30; PInt 40]);
+                OShuffle 0 [2; 0; 3; 1]%nat (* table 1: ids 2 0 3 1 *); OGetRows 0 [3; 1]%Z (* table 2: ids 3 1 *);
+                OGetRows 1 [0; 2]%Z (* table 3: ids 2 3 *);
+                OSetCell 1 "f" (ASel 2) (RSeq [PInt 7; PInt 8]);
+                OSetCell 3 "f" (ASel 2) (RScalar (PInt 9))] w0 in
+  option_map (fun t => map (fun '(n, _, c) => (n, c)) (view t)) (nth_error (pool w) 1)
+    = Some [("f", [VFlt (FFin false 15 1); VFlt (FFin false 5 1); VFlt (FFin false 7 0); VFlt (FFin false 1 3)])]   (* 30, 10, 7, 8 *)
+  /\ snd (step w (OSetCell 3 "f" (ASel 2) (RScalar (PInt 9)))) = Err KeyError.
+Proof. vm_compute. split; reflexivity. Qed.
+
 (* BaseColumn._tosequence on its regenerated bounds (how many cells of the value are read: k_toseq_take; the length
    test: k_toseq_badlen) is the L0 value coercion: a scalar is broadcast, a sequence is applied in order, a sequence of
    another length raises ValueError -- for every kind, length and value *)
